@@ -85,6 +85,9 @@ impl Property for C02 {
         });
         Box::new(it)
     }
+    fn fuzz_plans(&self) -> Vec<(&'static str, u64)> {
+        vec![("wire_struct", 20000), ("wire_raw", 30000)]
+    }
     fn gen(&self, c: &mut Choices) -> Case {
         Case::Wire(gen_struct_case(c, None))
     }
